@@ -109,7 +109,7 @@ TIE_FUNCS = {
                               "LeanString.from_utf16_lossy", "LeanString.from_iter_char", "LeanString.extend_char",
                               "LeanString.from_char_conv", "LeanString.from_string", "LeanString.from_string_ref", "LeanString.from_box",
                               "LeanString.from_ls_ref", "LeanString.from_str_trait", "LeanString.from_str_ref", "LeanString.clone",
-                              "LeanString.from_utf8_unchecked", "LeanString.is_empty", "LeanString.as_str", "LeanString.as_bytes", "LeanString.try_retain", "LeanString.retain",
+                              "LeanString.from_utf8_unchecked", "LeanString.default", "LeanString.is_empty", "LeanString.as_str", "LeanString.as_bytes", "LeanString.try_retain", "LeanString.retain",
                               "LeanString.push_str", "LeanString.new", "LeanString.drop"],
     "LSProofs.Props.C01G": [],
     "LSProofs.Gen.Good": ["Repr.push_str", "Repr.insert_str", "Repr.pop", "Repr.remove", "Repr.reserve", "Repr.ensure_modifiable",
